@@ -5,7 +5,10 @@ READINGS (the oracle is written under these; each is the reading under which the
 * Equality of scores is equality of `abstract(score)` below, with the identifications MusicXML itself makes:
   a missing voice or staff denotes 1 (also on directions), a missing alteration denotes 0, a tempo mark is its
   quarter-note tempo, a missing/empty part name is no name, a symbolic duration is what the note shows (explicit dict
-  or the estimate partitura derives from the numeric duration; `dots` missing = 0), `raw_text` missing = the text.
+  or the estimate partitura derives from the numeric duration; `dots` missing = 0), `raw_text` missing = the text,
+  an empty key mode is no mode, a tuplet that lacks one of its four values shows what the symbolic duration of its first note
+  implies (that is what the file says: `<tuplet>` without `<tuplet-actual>`), an articulation is one of the sixteen elements
+  MusicXML has (other strings cannot be written), a fingering is a non-negative number.
   Pages/systems are not in the property's list and are not compared (the importer numbers systems twice at a
   `<print new-page new-system>`).
 * "Scores MusicXML can express" (`domain_issues` lists the reasons for which the oracle stays silent; the model streams
@@ -58,7 +61,7 @@ from core import Eval
 
 PROPERTY = "C03"
 DRIVER = "drv_c03"
-PROPS = ["PartituraModel.Props.C03"]
+PROPS = ["PartituraModel.Props.C03", "PartituraModel.Props.C03Codec"]
 TRUSTED = [
     "lxml serialisation/parsing (etree.tostring pretty_print, XMLParser remove_blank_text), find/findall/xpath",
     "Part.iter_all order inside a time point (class registry order) is taken from the implementation as input of the writer model",
@@ -110,7 +113,7 @@ def _durations(q, remaining):
 
 def gen_part(rng, pid, big=False, feat=None):
     feat = feat or {}
-    q = rng.choice([1, 2, 3, 4, 4, 6, 8, 12, 24, 480])
+    q = rng.choice([1, 2, 3, 4, 4, 6, 8, 12, 20, 24, 480])
     nm = rng.randint(1, 5 if big else 3)
     nstaves = rng.choice([1, 1, 2, 3])
     novoice = rng.random() < 0.12
@@ -128,7 +131,7 @@ def gen_part(rng, pid, big=False, feat=None):
                 beats, bt = rng.choice(ts_pool)
             d["ts"].append([t, beats, bt])
         if m == 0 or rng.random() < 0.2:
-            d["ks"].append([t, rng.randint(-7, 7), rng.choice(["major", "minor", None])])
+            d["ks"].append([t, rng.randint(-7, 7), rng.choice(["major", "minor", None, "dorian", ""])])
         if m == 0:
             for s in range(1, nstaves + 1):
                 d["clefs"].append([t, s, rng.choice(["G", "F", "C"]), rng.choice([2, 3, 4]), rng.choice([0, 0, 0, -1, 1])])
@@ -150,9 +153,10 @@ def gen_part(rng, pid, big=False, feat=None):
                     q = rng.choice([1, 2, 3, 4, 6, 8, 12])
                     d["qd"].append([t, q])
                 elif r < 0.7 and nstaves >= 1:
-                    d["clefs"].append([t, rng.randint(1, nstaves), rng.choice(["G", "F"]), rng.choice([2, 4]), 0])
+                    d["clefs"].append([t, rng.randint(1, nstaves), rng.choice(["G", "F", "C", "percussion"]), rng.choice([2, 4, None]),
+                                       rng.choice([0, 0, 1, -1, None])])
                 elif r < 0.8:
-                    d["ks"].append([t, rng.randint(-7, 7), rng.choice(["major", "minor", None])])
+                    d["ks"].append([t, rng.randint(-7, 7), rng.choice(["major", "minor", None, "dorian", ""])])
                 elif r < 0.9:
                     d["ts"].append([t, *rng.choice(ts_pool)])
             ln = cq * q
@@ -215,7 +219,25 @@ def gen_part(rng, pid, big=False, feat=None):
                         d["notes"].append(n)
                         ids.append(n["id"])
                     if rng.random() < 0.7:
-                        d["tuplets"].append([ids[0], ids[2], 3, 2, "eighth", "eighth"])
+                        if rng.random() < 0.2:
+                            # a tuplet that does not say what it is: MusicXML shows what the notes show
+                            d["tuplets"].append([ids[0], ids[2], rng.choice([None, 3]), None, None, rng.choice([None, "eighth"])])
+                        else:
+                            d["tuplets"].append([ids[0], ids[2], 3, 2, rng.choice(["eighth", "16th"]), rng.choice(["eighth", "quarter"])])
+                    pos += cq
+                    prev_single = None
+                    continue
+                if cq % 5 == 0 and r < 0.34 and pos + cq <= ce:
+                    td = cq // 5
+                    ids = []
+                    for i in range(5):
+                        n = {"id": new_id(), "t": pos + i * td, "dur": td, "kind": "note", "step": rng.choice(STEPS), "alter": 0,
+                             "oct": octave, "voice": vv, "staff": st}
+                        d["notes"].append(n)
+                        ids.append(n["id"])
+                    d["tuplets"].append([ids[0], ids[4], 5, 4, "16th", "16th"])
+                    if rng.random() < 0.3:
+                        d["tuplets"].append([ids[1], ids[3], 3, 2, "16th", "16th"])  # nested, starts and stops inside
                     pos += cq
                     prev_single = None
                     continue
@@ -233,19 +255,29 @@ def gen_part(rng, pid, big=False, feat=None):
                     cd = dur
                     if ci > 0 and rng.random() < 0.25:
                         cd = rng.choice(durs)  # chord member of another duration: polyphony inside the voice
-                    kind = "unp" if (rng.random() < 0.04 and not graces) else "note"
+                    kind = "unp" if (rng.random() < 0.05 and not graces) else "note"
                     n = {"id": new_id(), "t": pos, "dur": cd, "kind": kind, "step": stp, "alter": rng.choice([0, 0, 0, 1, -1, 2, -2, None]),
                          "oct": octave, "voice": vv, "staff": st}
                     if rng.random() < 0.1:
-                        n["stem"] = rng.choice(["up", "down"])
+                        n["stem"] = rng.choice(["up", "down", "up", "down", "none", "double"])
                     if rng.random() < 0.1:
-                        n["art"] = rng.sample(["staccato", "accent", "tenuto", "strong-accent", "staccatissimo"], rng.randint(1, 2))
+                        n["art"] = rng.sample(ALL_ARTICULATIONS + ["bogus-articulation"], rng.randint(1, 3))
                     if rng.random() < 0.08:
-                        n["fing"] = [rng.randint(1, 5)]
+                        n["fing"] = [rng.randint(0, 5) for _ in range(rng.choice([1, 1, 1, 2, 3]))]
                     if rng.random() < 0.05:
                         n["fermata"] = True
                     if rng.random() < 0.06 and cq % 2 == 0 and cd == cq // 2:
                         n["symdur"] = {"type": "eighth"}
+                    elif rng.random() < 0.05:
+                        # an explicit symbolic duration (shown as given, whatever the numeric duration is)
+                        sdur = {"type": rng.choice(["quarter", "half", "16th", "eighth", "whole", "breve", "32nd"])}
+                        if rng.random() < 0.5:
+                            sdur["dots"] = rng.choice([0, 1, 2, 3])
+                        if rng.random() < 0.4:
+                            sdur["actual_notes"], sdur["normal_notes"] = rng.choice([(3, 2), (5, 4), (2, 3), (7, 8)])
+                        n["symdur"] = sdur
+                    if kind == "unp" and rng.random() < 0.5:
+                        n["notehead"] = [rng.choice(["x", "diamond", "normal", "triangle"]), rng.random() < 0.5]
                     chord.append(n)
                 # tie from the previous single note of this voice (same pitch, adjacent in time)
                 if (prev_single is not None and nch == 1 and chord[0]["kind"] == "note" and not graces
@@ -314,8 +346,10 @@ def drop_concurrent_ties(d):
             kept.append((lo, hi, p))
 
 
-DYN_MARKS = ["p", "pp", "f", "ff", "mf", "mp", "ppp", "fff"]
-IMP_MARKS = ["sfz", "fp", "fz", "sf"]
+ALL_ARTICULATIONS = ["accent", "breath-mark", "caesura", "detached-legato", "doit", "falloff", "plop", "scoop", "soft-accent", "spiccato",
+                     "staccatissimo", "staccato", "stress", "strong-accent", "tenuto", "unstress"]
+DYN_MARKS = ["p", "pp", "f", "ff", "mf", "mp", "ppp", "fff", "n", "pppp", "ffffff"]
+IMP_MARKS = ["sfz", "fp", "fz", "sf", "rfz", "sffz", "sfpp", "pf"]
 DASH_WORDS = ["cresc.", "dim.", "rit.", "accel.", "crescendo", "ritardando", "decresc."]
 CONST_WORDS = ["Allegro", "Andante", "Adagio", "legato", "a tempo", "Presto", "dolce"]
 PLAIN_WORDS = ["spaghetti", "Zzz 12"]
@@ -360,7 +394,8 @@ def gen_extras(rng, d, nstaves):
         t = rng.choice([m[0] for m in meas] + inner[:1])
         if t not in used_t:
             used_t.add(t)
-            bpm, unit = rng.choice([(120, "q"), (60, "q"), (72, None), (50, "h"), (100, "e"), (80, "q."), (66, "h."), (132, "q")])
+            bpm, unit = rng.choice([(120, "q"), (60, "q"), (72, None), (50, "h"), (100, "e"), (80, "q."), (66, "h."), (132, "q"),
+                                    (66.5, "q"), (100, "e."), (63, "s"), (90.25, "h"), (55, "q..")])
             ex.append(["Tempo", t, None, {"bpm": bpm, "unit": unit}])
     if len(meas) >= 2 and r() < 0.35:
         i = rng.randrange(len(meas))
@@ -441,6 +476,8 @@ def build_part(d):
             kw.pop("stem_direction", None)
             o = S.Rest(**kw)
         elif k == "unp":
+            if n.get("notehead"):
+                kw["notehead"], kw["noteheadstyle"] = n["notehead"]
             o = S.UnpitchedNote(step=n["step"], octave=n["oct"], **kw)
         elif k == "grace":
             o = S.GraceNote(n.get("grace_type", "grace"), step=n["step"], octave=n["oct"], alter=n.get("alter"), **kw)
@@ -509,6 +546,18 @@ def _symdur(n):
     return (sd.get("type"), sd.get("dots") or 0, sd.get("actual_notes"), sd.get("normal_notes"))
 
 
+def _tuplet_shown(o):
+    """(actual_notes, normal_notes, actual_type, normal_type) as MusicXML shows them: the tuplet's own four values when it has
+    all of them, else what the symbolic duration of its first note implies, else nothing"""
+    vals = (o.actual_notes, o.normal_notes, o.actual_type, o.normal_type)
+    if None not in vals:
+        return vals
+    sd = (o.start_note.symbolic_duration or {}) if o.start_note is not None else {}
+    if isinstance(sd, dict) and sd.get("actual_notes") and sd.get("normal_notes") and sd.get("type"):
+        return (sd["actual_notes"], sd["normal_notes"], sd["type"], sd["type"])
+    return (None, None, None, None)
+
+
 def quarter_pos(part):
     """exact position in quarter notes of a timeline time (own piecewise computation, Fractions)"""
     qt = [int(x) for x in part._quarter_times]
@@ -536,8 +585,10 @@ def note_key(n):
             repr(_symdur(n)))
 
 
-EXPORTED_ARTICULATIONS = {"accent", "breath-mark", "caesura", "detached-legato", "doit", "falloff", "plop", "scoop", "spiccato",
-                          "staccatissimo", "staccato", "stress", "strong-accent", "tenuto", "unstress"}
+# the articulations MusicXML 3.1 has an element for (<!ELEMENT articulations ...>, minus other-articulation); any other string
+# in note.articulations is not expressible
+EXPORTED_ARTICULATIONS = {"accent", "breath-mark", "caesura", "detached-legato", "doit", "falloff", "plop", "scoop", "soft-accent",
+                          "spiccato", "staccatissimo", "staccato", "stress", "strong-accent", "tenuto", "unstress"}
 DERIVED_END = ("Page", "System", "ConstantLoudnessDirection", "ConstantTempoDirection", "ConstantArticulationDirection",
                "ResetTempoDirection")
 
@@ -587,12 +638,13 @@ def abstract_part(part):
             e["grace_prev"] = ref(n.grace_prev)
         if isinstance(n, S.UnpitchedNote):
             e["notehead"] = n.notehead
+            e["notehead_filled"] = None if n.notehead is None else bool(n.noteheadstyle)
         nl.append(e)
     A["notes"] = nl
     A["slurs"] = _srt((ref(o.start_note), ref(o.end_note), o.start.t if o.start else None, o.end.t if o.end else None)
                         for o in part.iter_all(S.Slur))
-    A["tuplets"] = _srt(((ref(o.start_note), ref(o.end_note), o.start.t if o.start else None, o.end.t if o.end else None,
-                            o.actual_notes, o.normal_notes, o.actual_type, o.normal_type) for o in part.iter_all(S.Tuplet)))
+    A["tuplets"] = _srt(((ref(o.start_note), ref(o.end_note), o.start.t if o.start else None, o.end.t if o.end else None)
+                          + _tuplet_shown(o) for o in part.iter_all(S.Tuplet)))
     dirs = []
     for o in part.iter_all(S.Direction, include_subclasses=True):
         cls = type(o).__name__
@@ -728,6 +780,429 @@ def ev_tokens(evs, idx_of):
         else:
             toks += ["o", str(e[1]), e[2]]
     return " ".join(toks)
+
+
+
+# ====================================================================== element codecs (Model/XmlNote.lean)
+def _enc(x):
+    """string token that both sides print the same way: ASCII letters, digits, `_`, `.` stay; else %xx"""
+    x = str(x)
+    if x == "":
+        return "%"
+    out = []
+    for ch in x:
+        if (ch.isascii() and ch.isalnum()) or ch in "_.":
+            out.append(ch)
+        elif ord(ch) < 256:
+            out.append("%%%02x" % ord(ch))
+        else:
+            raise ValueError("non-latin1 char in wire string")
+    return "".join(out)
+
+
+def _eopt(f, x):
+    return "-" if x is None else f(x)
+
+
+def _text(el):
+    t = el.text or ""
+    return "" if (len(el) and not t.strip()) else t
+
+
+def _kids(el):
+    return [c for c in el if isinstance(c.tag, str)]
+
+
+def xml_tokens(el):
+    """prefix encoding of an element tree (request side)"""
+    toks = [el.tag, str(len(el.attrib))]
+    for k, v in el.attrib.items():
+        toks += [k, _enc(v)]
+    ks = _kids(el)
+    toks += [_enc(_text(el)), str(len(ks))]
+    for c in ks:
+        toks += xml_tokens(c)
+    return toks
+
+
+def xml_text(el):
+    """canonical text of an element tree (what drv_c03 prints)"""
+    return "(%s;%s;%s;%s)" % (el.tag, ",".join("%s=%s" % (k, _enc(v)) for k, v in el.attrib.items()), _enc(_text(el)),
+                              ",".join(xml_text(c) for c in _kids(el)))
+
+
+def _tuplet_info(o):
+    vals = (o.actual_notes, o.actual_type, o.normal_notes, o.normal_type)
+    return vals
+
+
+def note_attr_tokens(n, el, nstaves):
+    """NoteAttrs of Model/XmlNote.lean from the score's note; what the measure writer decides (voice, chord) and the range
+    numbers (streams lin / numg) are taken from the element written; None = not expressible on the wire"""
+    import partitura.score as S
+
+    toks = [_eopt(_enc, el.get("id") if n.id is not None else None)]
+    if isinstance(n, S.Note):
+        g = "-"
+        if isinstance(n, S.GraceNote):
+            g = {"grace": "g", "acciaccatura": "a", "appoggiatura": "p"}.get(n.grace_type)
+            if g is None:
+                return None
+        toks += ["p", _enc(n.step), _eopt(W.i, n.alter), W.i(n.octave), g]
+    elif isinstance(n, S.UnpitchedNote):
+        toks += ["u", _enc(n.step), W.i(n.octave)]
+        toks += ["-"] if n.notehead is None else [_enc(n.notehead), W.b(n.noteheadstyle)]
+    elif isinstance(n, S.Rest):
+        toks += ["r", W.b(n.hidden)]
+    else:
+        return None
+    toks += [W.i(0 if isinstance(n, S.GraceNote) else n.end.t - n.start.t), W.b(el.find("chord") is not None),
+             W.b(n.tie_prev is not None), W.b(n.tie_next is not None), W.i(_int(el, "voice")),
+             _eopt(_enc, n.stem_direction), W.b(n.fermata is not None)]
+    arts = list(n.articulations or [])
+    toks.append(str(len(arts)))
+    toks += [a if (a and all(c.isalnum() or c == "-" for c in a) and a != "-") else "?" for a in arts]
+    tech = list(n.technical or [])
+    toks.append(str(len(tech)))
+    for t in tech:
+        if isinstance(t, S.Fingering):
+            if not isinstance(t.fingering, int) or t.fingering < 0:
+                return None
+            toks += ["f", W.i(t.fingering)]
+        else:
+            toks.append("o")
+    sd = n.symbolic_duration or {}
+    toks += [_eopt(_enc, sd.get("type")), W.i(sd.get("dots", 0) or 0), _eopt(W.i, sd.get("actual_notes")),
+             _eopt(W.i, sd.get("normal_notes")), _eopt(W.i, n.staff), W.i(nstaves)]
+    for kind, typ, objs in (("slur", "stop", n.slur_stops), ("slur", "start", n.slur_starts), ("tuplet", "stop", n.tuplet_stops)):
+        nums = [int(x.get("number")) for x in el.findall("notations/" + kind) if x.get("type") == typ]
+        if len(nums) != len(objs):
+            return None
+        toks += [str(len(nums))] + [str(k) for k in nums]
+    nums = [int(x.get("number")) for x in el.findall("notations/tuplet") if x.get("type") == "start"]
+    infos = [_tuplet_info(o) for o in n.tuplet_starts]
+    if len(nums) != len(infos) or len(set(infos)) > 1:
+        return None  # which tuplet got which number is the counter's business (stream numg)
+    toks.append(str(len(nums)))
+    for k, (an, ta, nn, tn) in zip(nums, infos):
+        toks += [str(k), _eopt(W.i, an), _eopt(_enc, ta), _eopt(W.i, nn), _eopt(_enc, tn)]
+    return " ".join(toks)
+
+
+def note_read_text(ln, el):
+    """canonical text of NoteRead: every field from the note load_musicxml made, except what a note object does not show
+    (the <chord/> flag, the tie types, the numbers of slur/tuplet elements), which the harness reads from the element"""
+    import partitura.score as S
+
+    if isinstance(ln, S.Note):
+        body = "(p,%s,%s,%s,%s)" % (_eopt(_enc, ln.step), _eopt(W.i, ln.alter), _eopt(W.i, ln.octave),
+                                    ln.grace_type if isinstance(ln, S.GraceNote) else "-")
+    elif isinstance(ln, S.UnpitchedNote):
+        body = "(u,%s,%s,%s,%s)" % (_eopt(_enc, ln.step), _eopt(W.i, ln.octave), _eopt(_enc, ln.notehead), W.b(ln.noteheadstyle))
+    else:
+        body = "(r)"
+    sd = ln._sym_dur or {}
+    tt = set(t.get("type") for t in el.findall("tie"))
+    voice = ln.voice
+    slurs = ["%s:%d" % (W.b(x.get("type") == "start"), int(x.get("number") or 0) or voice)
+             for x in el.findall("notations/slur") if x.get("type") in ("start", "stop")]
+    tups = []
+    starts = list(ln.tuplet_starts)
+    for x in el.findall("notations/tuplet"):
+        if x.get("type") not in ("start", "stop"):
+            continue
+        num = int(x.get("number") or 0) or voice
+        if x.get("type") == "start":
+            o = starts.pop(0) if starts else None
+            vals = None if o is None else _tuplet_info(o)
+            info = "-" if (vals is None or None in vals) else "(%d,%s,%d,%s)" % (vals[0], _enc(vals[1]), vals[2], _enc(vals[3]))
+            tups.append("1:%d:%s" % (num, info))
+        else:
+            tups.append("0:%d:-" % num)
+    return "(" + ",".join([
+        _eopt(_enc, ln.id), body, W.i(ln.duration), W.b(el.find("chord") is not None), W.i(ln.staff), W.i(ln.voice),
+        _eopt(_enc, ln.stem_direction), _eopt(_enc, sd.get("type")), W.i(sd.get("dots", 0)), _eopt(W.i, sd.get("actual_notes")),
+        _eopt(W.i, sd.get("normal_notes")), "[" + ",".join(ln.articulations or []) + "]",
+        "[" + ",".join(str(t.fingering) for t in (ln.technical or [])) + "]", W.b(ln.fermata is not None),
+        W.b("stop" in tt), W.b("start" in tt), "[" + ",".join(slurs) + "]", "[" + ",".join(tups) + "]"]) + ")"
+
+
+def note_streams(ev, p, wms, loaded, byname, idx_of):
+    """wnote: the element written == writeNote(attrs);  rnote: readNote(element) == the note load_musicxml made;
+    cnote: canon(attrs) == that note too (the right-hand side of the theorem note_roundtrip);  evnote: the event the
+    measure model is given (parse_written) == toEv(element)"""
+    ns = p.number_of_staves
+    k = 0
+    for (_, evs) in wms:
+        for e in evs:
+            if e[0] != "n":
+                continue
+            el = e[7]
+            n = byname.get(e[1])
+            ln = loaded[k] if k < len(loaded) else None
+            k += 1
+            try:
+                xt = " ".join(xml_tokens(el))
+                at = None if n is None else note_attr_tokens(n, el, ns)
+            except ValueError:
+                continue
+            if at is not None:
+                ev.requests.append("wnote " + at)
+                ev.impl.append(xml_text(el) + "/1")
+            ev.requests.append("evnote %d %s" % (idx_of(e[1]), xt))
+            ev.impl.append(ev_text([e], idx_of)[1:-1])
+            if ln is not None:
+                want = note_read_text(ln, el)
+                ev.requests.append("rnote " + xt)
+                ev.impl.append(want)
+                if at is not None:
+                    ev.requests.append("cnote " + at)
+                    ev.impl.append(want)
+
+
+def articulation_tables(ev, X):
+    """the enumeration `Artic` of the model == the exporter's ARTICULATIONS table == what get_articulations recognises"""
+    from lxml import etree
+    import partitura.io.importmusicxml as I
+
+    cands = sorted(set(list(X.ARTICULATIONS) + list(EXPORTED_ARTICULATIONS) + ["other-articulation", "foo", "fermata"]))
+    probe = etree.Element("articulations")
+    for c in cands:
+        etree.SubElement(probe, c)
+    read = set(I.get_articulations(probe))
+    ev.requests.append("arts " + " ".join(cands))
+    ev.impl.append("[" + ",".join("%s:%s" % (c, W.b(c in X.ARTICULATIONS)) for c in cands) + "]")
+    ev.requests.append("arts " + " ".join(cands))
+    ev.impl.append("[" + ",".join("%s:%s" % (c, W.b(c in read)) for c in cands) + "]")
+
+
+
+# ====================================================================== direction / sound / attributes codecs (Model/XmlDir.lean)
+def _staff_tok(o):
+    return _eopt(W.i, getattr(o, "staff", None))
+
+
+def dir_sources(p, a, b, X):
+    """the objects behind the elements X.do_directions(p, a, b, counter) returns, in the same order (the loop structure of
+    do_directions, nothing of its element building): [(kind, object)]"""
+    import partitura.score as S
+
+    out = []
+    for tempo in p.iter_all(S.Tempo, a, b):
+        out.append(("sound", tempo))
+    for d in p.iter_all(S.Direction, a, b, include_subclasses=True):
+        text = d.raw_text or d.text
+        if text in X.PEDAL_DIRECTIONS:
+            ped_end = b if d.end is None else d.end
+            if d.start.t >= a.t:
+                out.append(("ped", d))
+            if ped_end.t <= b.t:
+                out.append(("pedstop", d))
+        else:
+            out.append(("dir", d))
+    ending = []
+    for d in p.iter_all(S.DynamicDirection, a.next, b.next, include_subclasses=True, mode="ending"):
+        ending.append(("stop", d))
+    for d in p.iter_all(S.PedalDirection, a.next, b.next, include_subclasses=True, mode="ending"):
+        text = d.raw_text or d.text
+        if text in X.PEDAL_DIRECTIONS and d.start.t < a.t:
+            ending.append(("pedstop", d))
+    return ending + out
+
+
+def tempo_tokens(q):
+    """TempoVal of a quarter tempo as `"{}".format(int(q) if q == int(q) else q)` prints it; None = not a plain decimal"""
+    if q == int(q):
+        return None if q < 0 else "i %d" % int(q)
+    r = repr(float(q))
+    if "e" in r or "n" in r or r.startswith("-"):
+        return None
+    ip, fp = r.split(".")
+    return "d %s %s" % (ip, _enc(fp))
+
+
+def tempo_text(bpm):
+    if isinstance(bpm, int):
+        return "i:%d" % bpm
+    ip, fp = repr(float(bpm)).split(".")
+    return "d:%s:%s" % (ip, _enc(fp))
+
+
+def dir_writer_streams(ev, src, res, X):
+    """wdir / wsound: the element do_directions built == writeDir / writeSound of the object behind it"""
+    import partitura.score as S
+    from partitura.utils.music import to_quarter_tempo
+
+    if len(src) != len(res):
+        ev.requests.append("wdir mismatch-of-lengths %d %d" % (len(src), len(res)))
+        ev.impl.append("harness: dir_sources does not mirror do_directions")
+        return
+    for (kind, d), (_, _, el) in zip(src, res):
+        try:
+            if kind == "sound":
+                tt = tempo_tokens(to_quarter_tempo("q" if d.unit is None else d.unit, d.bpm))
+                if tt is not None:
+                    ev.requests.append("wsound " + tt)
+                    ev.impl.append(xml_text(el) + "/1")
+                continue
+            text = d.raw_text or d.text
+            nums = [int(x.get("number")) for x in el.iter("wedge", "dashes")]
+            if kind == "ped" or kind == "pedstop":
+                if not isinstance(d, S.SustainPedalDirection):
+                    continue
+                req = "%s %s %s" % (kind, W.b(d.line), _staff_tok(d))
+            elif kind == "stop":
+                req = "stop %s %d" % (W.b(getattr(d, "wedge", False)), nums[0])
+            elif text in X.DYN_DIRECTIONS:
+                req = "dyn %s %s" % (_enc(text), _staff_tok(d))
+            elif getattr(d, "wedge", False):
+                req = "wedge %s %d %s" % (W.b(isinstance(d, S.IncreasingLoudnessDirection)), nums[0], _staff_tok(d))
+            else:
+                dashes = isinstance(d, S.DynamicDirection) and d.end is not None
+                req = "words %s %s %s" % (_enc(text), str(nums[0]) if dashes else "-", _staff_tok(d))
+            ev.requests.append("wdir " + req)
+            ev.impl.append(xml_text(el) + "/1")
+        except (ValueError, IndexError):
+            continue
+
+
+def attr_writer_streams(ev, p, a, b, X):
+    """wattr: every <attributes> element do_attributes built == writeAttributes of the entries of by_start[t]"""
+    import partitura.score as S
+    from collections import defaultdict
+
+    res = X.do_attributes(p, a, b)
+    by_start = defaultdict(list)
+    for t, q in p.quarter_durations(a.t, b.t):
+        by_start[int(t)].append("div %d" % int(q))
+    for o in p.iter_all(S.KeySignature, a, b):
+        by_start[o.start.t].append("key %s %s" % (W.i(o.fifths), _eopt(_enc, o.mode)))
+    for o in p.iter_all(S.TimeSignature, a, b):
+        by_start[o.start.t].append("time %s %s" % (W.i(o.beats), W.i(o.beat_type)))
+    for o in p.iter_all(S.Staff, a, b):
+        by_start[o.start.t].append("sd %s" % _eopt(W.i, o.lines))
+    clefs_by_start = defaultdict(list)
+    for o in p.iter_all(S.Clef, a, b):
+        clefs_by_start[o.start.t].append(o)
+    last = None
+    for t, clefs in clefs_by_start.items():
+        last = clefs
+        for o in clefs:
+            by_start[t].append("clef %s %s %s %s" % (_eopt(W.i, o.staff), _enc(o.sign), _eopt(W.i, o.line), _eopt(W.i, o.octave_change)))
+    ts = sorted(by_start)
+    if len(ts) != len(res):
+        ev.requests.append("wattr mismatch-of-lengths")
+        ev.impl.append("harness: by_start does not mirror do_attributes")
+        return
+    staves_done = False
+    for t, (_, _, el) in zip(ts, res):
+        items = by_start[t]
+        staves = "-"
+        if not staves_done and any(i.startswith("clef ") for i in items):
+            staves = str(len(last))
+            staves_done = True
+        try:
+            ev.requests.append("wattr %d %s %s" % (len(items), " ".join(items), staves))
+            ev.impl.append(xml_text(el) + "/1")
+        except ValueError:
+            continue
+
+
+def reader_streams(ev, wms):
+    """the non-note elements of one written part, in document order, through the model readers and through the importer's
+    own handlers on a scratch part (direction i at position i):
+      dirs   readDirections == what _handle_direction made of the sequence (objects, staff, start and end = pairing via ongoing)
+      slots  slotAll on the wedge (dashes) numbers == the (start, stop) pairs of the wedge (dashes) objects
+      rsound / rattr   readSound / readAttributes == what _handle_sound / _handle_attributes added"""
+    import partitura.score as S
+    import partitura.io.importmusicxml as I
+
+    els = [e[3] for (_, evs) in wms for e in evs if e[0] == "o"]
+    dirs = [el for el in els if el.tag == "direction"]
+    try:
+        if dirs:
+            scratch = S.Part("scratch", quarter_duration=1)
+            ongoing = {}
+            for i, el in enumerate(dirs):
+                I._handle_direction(el, i, scratch, ongoing)
+            words_of = {i: [w.text for dt in el.findall("direction-type") if len(dt) and dt[0].tag == "words" for w in dt] for i, el in enumerate(dirs)}
+            objs = []
+            seen_words = set()
+            wedge_pairs, dashes_pairs = [], []
+            for o in list(scratch.iter_all(S.Direction, include_subclasses=True)) + list(scratch.iter_all(S.Words)):
+                st = o.start.t
+                end = None if getattr(o, "end", None) is None else o.end.t
+                staff = getattr(o, "staff", None)
+                if isinstance(o, S.SustainPedalDirection):
+                    objs.append((st, 4, "", bool(o.line), staff, end))
+                elif getattr(o, "wedge", False):
+                    objs.append((st, 1 if isinstance(o, S.IncreasingLoudnessDirection) else 2, o.text, False, staff, end))
+                    if end is not None:
+                        wedge_pairs.append((end, st))
+                elif not words_of.get(st):
+                    objs.append((st, 0, o.text, False, staff, end))
+                else:
+                    # objects parse_direction made of the words of element `st`: one model object per <words>
+                    for wt in words_of[st]:
+                        if (st, wt) not in seen_words:
+                            seen_words.add((st, wt))
+                            objs.append((st, 3, wt, False, staff, end))
+                    if end is not None and (end, st) not in dashes_pairs:
+                        dashes_pairs.append((end, st))
+            # words whose parse gave neither a Direction nor Words (a Tempo): the model still lists the element
+            for st, wts in words_of.items():
+                for wt in wts:
+                    if (st, wt) not in seen_words:
+                        seen_words.add((st, wt))
+                        stf = dirs[st].find("staff")
+                        objs.append((st, 3, wt, False, (int(stf.text) or None) if stf is not None else None, None))
+
+            def otext(o):
+                return "(%d,%d,%s,%s,%s,%s)" % (o[0], o[1], _enc(o[2]), W.b(o[3]), _eopt(W.i, o[4]), _eopt(W.i, o[5]))
+
+            ev.requests.append("dirs %d %s" % (len(dirs), " ".join(" ".join(xml_tokens(el)) for el in dirs)))
+            ev.impl.append("[" + ",".join(sorted(otext(o) for o in objs)) + "]")
+            for kind, pairs in (("wedge", wedge_pairs), ("dashes", dashes_pairs)):
+                marks = [(i, x.get("type") != "stop", int(x.get("number"))) for i, el in enumerate(dirs) for x in el.iter(kind)]
+                if marks:
+                    ev.requests.append("slots %d %s" % (len(marks), " ".join("%d %s %d" % (i, W.b(st), k) for i, st, k in marks)))
+                    ev.impl.append("[" + ",".join("(%d,%d)" % (st, en) for en, st in sorted(pairs)) + "]")
+    except ValueError:
+        pass
+    for el in els:
+        try:
+            if el.tag == "sound":
+                scratch = S.Part("scratch", quarter_duration=1)
+                I._handle_sound(el, 0, scratch)
+                ts = list(scratch.iter_all(S.Tempo))
+                ev.requests.append("rsound " + " ".join(xml_tokens(el)))
+                ev.impl.append(tempo_text(ts[0].bpm) if ts else "-")
+            elif el.tag == "attributes":
+                scratch = S.Part("scratch", quarter_duration=977)
+                scratch.add(S.Measure(), 0, 8)  # a time point after 5, so that the quarter duration at 5 is visible
+                I._handle_attributes(el, 5, scratch)
+                tsg = [(o.beats, o.beat_type) for o in scratch.iter_all(S.TimeSignature)]
+                ksg = [(o.fifths, o.mode) for o in scratch.iter_all(S.KeySignature)]
+                qd = [int(q) for t, q in zip(scratch._quarter_times, scratch._quarter_durations) if int(t) == 5]
+                clefs = [(o.staff, o.sign, o.line, o.octave_change) for o in scratch.iter_all(S.Clef)]
+                ev.requests.append("rattr " + " ".join(xml_tokens(el)))
+                ev.impl.append("(%s,%s,%s,[%s])" % (
+                    "%d/%d" % tsg[0] if tsg else "-",
+                    "%s/%s" % (_eopt(W.i, ksg[0][0]), _eopt(_enc, ksg[0][1])) if ksg else "-",
+                    str(qd[0]) if qd else "-",
+                    ",".join("(%d,%s,%s,%s)" % (c[0], _eopt(_enc, c[1]), _eopt(W.i, c[2]), _eopt(W.i, c[3])) for c in clefs)))
+        except ValueError:
+            continue
+
+
+def dyn_table(ev, X):
+    """the table dynTable of the model == the live DYN_DIRECTIONS dict"""
+    import partitura.score as S
+
+    names = sorted(X.DYN_DIRECTIONS) + ["x", "sfff", "mff", "words"]
+    ev.requests.append("dyns " + " ".join(names))
+    ev.impl.append("[" + ",".join("%s:%s" % (n, {S.ConstantLoudnessDirection: "C", S.ImpulsiveLoudnessDirection: "I"}.get(
+        X.DYN_DIRECTIONS.get(n), "-")) for n in names) + "]")
 
 
 # ====================================================================== what the writer model is given
@@ -1064,6 +1539,10 @@ def _check_roundtrip(ev, s, what, streams, from_file):
     if not streams:
         return
     # ---------------- correspondence streams
+    articulation_tables(ev, X)
+    dyn_table(ev, X)
+    for (pid, wms) in written:
+        reader_streams(ev, wms)
     range_streams(ev, s, s2, written, X)
     for p, (pid, wms), p2 in zip(s.parts, written, s2.parts):
         notes = list(p.iter_all(S.GenericNote, include_subclasses=True))
@@ -1078,6 +1557,8 @@ def _check_roundtrip(ev, s, what, streams, from_file):
         loaded = sorted(p2.iter_all(S.GenericNote, include_subclasses=True), key=lambda n: n.doc_order)
         if len(measures) != len(wms):
             continue
+        if sum(1 for (_, e2) in wms for e in e2 if e[0] == "n") == len(loaded):
+            note_streams(ev, p, wms, loaded, {n.id: n for n in notes}, idx_of)
         for mi, (m, (_, evs)) in enumerate(zip(measures, wms)):
             # (i) writer model
             mm = model_measure(p, m, idx, X)
@@ -1196,9 +1677,8 @@ def range_streams(ev, s, s2, written, X):
         for m in p.iter_all(S.Measure):
             for (a, b) in measure_segments(p, m):
                 res = X.do_directions(p, a, b, counter)
-                for (_, _, el) in res:
-                    for x in el.iter("wedge", "dashes"):
-                        pass
+                dir_writer_streams(ev, dir_sources(p, a, b, X), res, X)
+                attr_writer_streams(ev, p, a, b, X)
                 # processing order: the starting directions of the segment, then the ending ones
                 starts = [d for d in p.iter_all(S.Direction, a, b, include_subclasses=True)]
                 nend = sum(1 for _ in p.iter_all(S.DynamicDirection, a.next, b.next, include_subclasses=True, mode="ending")) if a.next is not None else 0
